@@ -130,6 +130,15 @@ def gen_source(rng, kind, idx, tier="quick", only=None):
         if kind == "readerr":
             src["read_error_at"] = rng.choice([0, 1, 1, 2, 3])
             src["read_buffer"] = rng.choice([16, 64, 8192])
+    elif kind == "plainjson":
+        # plain JSON lines (not written by flow.record): the reader derives a json/record descriptor per line
+        lines = []
+        for i in range(n):
+            obj = {}
+            for key in rng.sample(["s", "n", "q", "f", "extra"], rng.randrange(1, 4)):
+                obj[key] = rng.choice({"s": ["x", "y", "z", None], "n": [0, 1, 2, 3, 4, "7"], "q": ["q", "x", 5], "f": [True, False], "extra": ["e1", None, 1.5]}[key])
+            lines.append(obj)
+        src["lines"] = lines
     elif kind in ("json", "badjson"):
         src["recs"] = [gen_rec(rng, i, only) for i in range(n)]
         if kind == "badjson":
@@ -195,7 +204,9 @@ def generate(rng, tier, index):
     sources = []
     have_stdin = False
     for i in range(n):
-        kind = rng.choice(["good", "good", "good", "json", "stdin"] + FAULT_KINDS)
+        kind = rng.choice(["good", "good", "good", "json", "stdin", "plainjson"] + FAULT_KINDS)
+        if kind == "plainjson" and (only or SELECTORS[opts["sel"]][0] not in (None, "r.s == 'x'", "r.q == 'q' or r.s == 'z'", "r.f", "r.extra == 'e1' or r.n == 4")):
+            kind = "json"  # ordering comparisons on loosely typed JSON values are selector semantics, not slicing
         if kind == "stdin":
             if have_stdin:
                 kind = "good"
@@ -265,6 +276,21 @@ def build_source(w, src, descs):
     if kind == "dir":
         w.fs.makedirs(base + ".records", exist_ok=True)
         return base + ".records", []
+    if kind == "plainjson":
+        from flow.record import RecordDescriptor
+
+        path = base + ".jsonl"
+        out = []
+        recs = []
+        for obj in src["lines"]:
+            out.append(json.dumps(obj))
+            fields = []
+            for k, v in obj.items():
+                t = "string" if isinstance(v, str) or v is None else "float" if isinstance(v, float) else "boolean" if isinstance(v, bool) else "varint"
+                fields.append((t, k))
+            recs.append(RecordDescriptor("json/record", fields)(**obj))
+        w.fs.put(path, ("\n".join(out) + ("\n" if out else "")).encode())
+        return path, recs
     recs = [make_record(descs, r) for r in src.get("recs", [])]
     if kind in ("json", "badjson"):
         path = base + ".json"
@@ -408,6 +434,8 @@ def json_form(v):
         return bool(v)
     if isinstance(v, int):
         return int(v)
+    if isinstance(v, float):
+        return float(v)
     if isinstance(v, (list, tuple)):
         return [json_form(x) for x in v]
     return str(v)
